@@ -223,6 +223,10 @@ func TestCheck(t *testing.T) {
 	run.Assume("histories are those the generator builds (no oracle service / NeoFS / state sync here)")
 	run.Assume("MaxTraceableBlocks is protocol state and therefore equal (10) on every node of a farm")
 	part := os.Getenv("VERIF_PART")
+	if part == "long" {
+		longPart(t, run)
+		return
+	}
 	tier := ev.Tier()
 	nh := ev.Pick(5, 24)
 	nb := ev.Pick(100, 200)
